@@ -1,5 +1,5 @@
 (* C08 — segmentation and aggregation follow the protocol rules. *)
-Require Import CMP.Bytes CMP.Packet CMP.Decoder CMP.Encoder CMP.EncoderProofs.
+Require Import CMP.Bytes CMP.Packet CMP.Tecmp CMP.Decoder CMP.Encoder CMP.EncoderProofs CMP.Cir CMP.CodeRefine CMPGen.GenCode.
 Local Open Scope Z_scope.
 
 (* The control flow of the encoder (putPacket / checkIfSegmented / addNewCMPFrame, bytesLeft arithmetic) produces exactly the
@@ -52,6 +52,17 @@ Print Assumptions C08_split_rule.
 Definition ex_pkt (n : nat) : packet :=
   {| p_pl := Some {| pl_type := 511; pl_data := repeat 7 n |}; p_ver := 1; p_dev := 0; p_stream := 0; p_seq := 0;
      p_ts := 0; p_ifid := 0; p_vendor := 0; p_flags := 0; p_seg := 0 |}.
+(* Tie T2: the flag rule itself, as it stands in /repo on this run. Encoder::buildSegmentationFlag, re-translated into the IR of Cir.v,
+   returns - for every argument tuple the encoder can pass (bytesToAdd < 65536, positions below 2^64) - the flag the model's segment
+   loop (Encoder.cloop) computes: unsegmented if the packet fits, else first for segment 0, last for the segment that ends at the
+   payload's end, intermediary otherwise. *)
+Theorem C08_translated_flag_rule_is_the_models : forall (seg : bool) k n L pos,
+  0 <= n < 65536 -> 0 <= L < 2 ^ 64 -> 0 <= pos -> pos + n < 2 ^ 64 ->
+  ceval gen_reads [] (env_of_list [b2z seg; k; n; L; pos]) code_Encoder_buildSegmentationFlag
+  = Ok (if seg then (if k =? 0 then 4 else if pos + n =? L then 12 else 8) else 0).
+Proof. exact code_seg_flag. Qed.
+Print Assumptions C08_translated_flag_rule_is_the_models.
+
 Example C08_example :
   map (fun f => map (fun i => (it_flag i, it_len i)) (fr_items f)) (enc_struct 56 [ex_pkt 8; ex_pkt 100; ex_pkt 8])
   = [[(0, 8)]; [(4, 40)]; [(8, 40)]; [(12, 20)]; [(0, 8)]].
